@@ -59,11 +59,11 @@ Fixpoint transpose (n : nat) (cols : list (list val)) : list (list val) :=
 Definition rows_of (n : nat) (args : list column) : list (list val) :=
   transpose n (map col_vals args).
 
-(* numpy.vectorize(func)(*args) for n rows *)
+(* numpy.vectorize(func) applied to the argument columns, n rows *)
 Definition vectorize (f : list val -> res val) (n : nat) (args : list column) : res column :=
   match rows_of n args with
   | [] => Err EValue                        (* size-0 inputs: numpy.vectorize raises *)
-  | r0 :: _ as rows =>
+  | (r0 :: _) as rows =>
       do v0 <- f r0;
       do vs <- mapM_res f rows;
       pack (type_of v0) vs
